@@ -416,6 +416,36 @@ func (d *cnDriver) step() error {
 			return err
 		}
 	}
+	if d.rng.Intn(9) == 0 && n.cfg.Validators > 1 {
+		// a registered node (active, or expired and not yet removed) tries to change hands: it re-registers, correctly signed,
+		// under the previous entity, which lists it.  Refused by the update rules while the node's record exists.
+		i := d.rng.Intn(n.cfg.Validators)
+		if nodes, ok := d.lastReg["nodes"].([]map[string]any); ok {
+			for _, x := range nodes { // prefer a node whose registration has lapsed but is still on record
+				var j int
+				if exp, _ := x["exp"].(int64); exp < epochNow && d.rng.Intn(2) == 0 {
+					if _, err := fmt.Sscanf(x["id"].(string), "N%d", &j); err == nil && j < n.cfg.Validators {
+						i = j
+					}
+				}
+			}
+		}
+		present := false
+		if nodes, ok := d.lastReg["nodes"].([]map[string]any); ok {
+			for _, x := range nodes {
+				present = present || x["id"] == fmt.Sprintf("N%d", i)
+			}
+		}
+		if i != 1 && present {
+			v := n.vals[i]
+			sp := &cnTxSpec{Kind: "regnode", Signer: v.name, Node: v.name, Entity: fmt.Sprintf("E%d", (i-1+n.cfg.Validators)%n.cfg.Validators),
+				Amount: epochNow + 2, Nonce: uint64(d.acctField(v.name, "n")) + nonceBump[v.name], Gas: 5000, Validity: "entitychange", Runtimes: d.nodeRts[v.name]}
+			if raw, err := n.buildTx(sp, d.rng); err == nil {
+				nonceBump[v.name]++
+				metas = append(metas, cnTxMeta{sp, raw})
+			}
+		}
+	}
 	if d.rng.Intn(6) == 0 {
 		// registry transactions without the required authority
 		i := d.rng.Intn(len(n.vals))
